@@ -6,15 +6,36 @@ The abstract specification is a plain function `BName → Option BPath`.
 import KlogV.Lemmas.BookmarksMap
 namespace KlogV.C19
 
-/-- the plain map a database denotes -/
-def denote (bc : Bookmarks) : BName → Option BPath := fun n => bc.get n
+/-
+The definitions the statements use live in KlogV/Lemmas/BookmarksMap.lean (namespace `KlogV`,
+moved there unchanged so that the lemma file can state its lemmas); for reference:
 
-/-- the map operations -/
-def specSet (m : BName → Option BPath) (n : BName) (p : BPath) : BName → Option BPath := fun k => if k = n then some p else m k
-def specUnset (m : BName → Option BPath) (n : BName) : BName → Option BPath := fun k => if k = n then none else m k
+  /-- the plain map a database denotes -/
+  def denote (bc : Bookmarks) : BName → Option BPath := fun n => bc.get n
 
-/-- databases have at most one entry per name -/
-abbrev WF (bc : Bookmarks) : Prop := (bc.map (·.1)).Nodup
+  /-- the map operations -/
+  def specSet (m : BName → Option BPath) (n : BName) (p : BPath) : BName → Option BPath := fun k => if k = n then some p else m k
+  def specUnset (m : BName → Option BPath) (n : BName) : BName → Option BPath := fun k => if k = n then none else m k
+
+  /-- databases have at most one entry per name -/
+  abbrev WF (bc : Bookmarks) : Prop := (bc.map (·.1)).Nodup
+
+  def runHistory (bc : Bookmarks) : List BOp → Bookmarks
+    | [] => bc
+    | op :: ops => runHistory ((bc.apply op).getD bc) ops
+
+  def specHistory (m : BName → Option BPath) : List BOp → (BName → Option BPath)
+    | [] => m
+    | .set n p :: ops => specHistory (specSet m (newName n) p) ops
+    | .unset n :: ops => specHistory (specUnset m (newName n)) ops
+    | .clear :: ops => specHistory (fun _ => none) ops
+
+  def decodeDb : Spec.J → Option Bookmarks
+    | .arr xs => xs.mapM (fun x => match x with
+        | .obj [(k1, .str n), (k2, .str p)] => if k1 = "name".toList ∧ k2 = "path".toList then some (n, p) else none
+        | _ => none)
+    | _ => none
+-/
 
 /-- `@` prefixes are not part of a name; the unnamed bookmark is `default`; a name never starts
 with `@` and is never empty. -/
@@ -35,20 +56,13 @@ theorem unset_refines (bc : Bookmarks) (h : WF bc) (n : List Char) :
   KlogV.apply_unset bc h n
 
 theorem clear_refines (bc : Bookmarks) : bc.apply .clear = some [] ∧ denote [] = fun _ => none := by
-  simp [Bookmarks.apply, denote, Bookmarks.get]
+  refine ⟨rfl, ?_⟩
+  funext n
+  simp [denote, Bookmarks.get]
 
 /-- Any history of commands, started from the empty database: the database denotes what the
-same history of map operations yields (failed commands change nothing). -/
-def runHistory (bc : Bookmarks) : List BOp → Bookmarks
-  | [] => bc
-  | op :: ops => runHistory ((bc.apply op).getD bc) ops
-
-def specHistory (m : BName → Option BPath) : List BOp → (BName → Option BPath)
-  | [] => m
-  | .set n p :: ops => specHistory (specSet m (newName n) p) ops
-  | .unset n :: ops => specHistory (specUnset m (newName n)) ops
-  | .clear :: ops => specHistory (fun _ => none) ops
-
+same history of map operations yields (failed commands change nothing).
+(`runHistory`, `specHistory`: see above.) -/
 theorem history_refines (ops : List BOp) :
     WF (runHistory [] ops) ∧ denote (runHistory [] ops) = specHistory (fun _ => none) ops :=
   KlogV.history_refines ops
@@ -60,13 +74,7 @@ theorem list_sorted (bc : Bookmarks) :
 
 /-- Persistence: the database file written after a command can always be read back (with an
 independent JSON reader) to exactly that map — for all names and paths, whatever characters they
-contain. -/
-def decodeDb : Spec.J → Option Bookmarks
-  | .arr xs => xs.mapM (fun x => match x with
-      | .obj [(k1, .str n), (k2, .str p)] => if k1 = "name".toList ∧ k2 = "path".toList then some (n, p) else none
-      | _ => none)
-  | _ => none
-
+contain.  (`decodeDb`: see above.) -/
 theorem persist_roundtrip (bc : Bookmarks) (h : bc ≠ []) :
     (Spec.readJson bc.toJson).bind decodeDb = some bc.sorted :=
   KlogV.toJson_roundtrip bc h
